@@ -104,8 +104,8 @@ CHECKS["C06"] = dict(
             dict(spec="MCIngest.tla", cfg="MCIngestAsRead.cfg", cfg_thorough="MCIngestAsRead_thorough.cfg", workers=8, timeout=900,
                  thorough_only=True)],
     gen=dict(
-        quick=[dict(mode="edges", spec="IngestGen.tla", cfg="IngestGenQuick.cfg", depth=1, name="ops"),
-               dict(mode="edges", spec="IngestGen.tla", cfg="IngestGenQuick.cfg", depth=2, max=24, name="pairs")],
+        quick=[dict(mode="edges", spec="IngestGen.tla", cfg="IngestGenEdges.cfg", depth=1, name="ops"),
+               dict(mode="edges", spec="IngestGen.tla", cfg="IngestGenQuick.cfg", depth=2, max=60, name="pairs")],
         thorough=[dict(mode="edges", spec="IngestGen.tla", cfg="IngestGenAll.cfg", depth=1, name="ops", timeout=900),
                   dict(mode="edges", spec="IngestGen.tla", cfg="IngestGenEdges.cfg", depth=2, max=500, name="pairs", timeout=900)]),
     judge=dict(spec="IngestTrace.tla", cfg="IngestTrace.cfg"),
@@ -117,13 +117,13 @@ CHECKS["C06"] = dict(
                              for o in s["ops"]),
     rule="TLC edges mode over Ingest: one shortest history per (addresses held, files registered, last operation). Operations: "
          "retrieve via {client RetrieveChunk with 1 or 2 peers, relay through the retrieval handler} x requested address "
-         "{full CAC, SOC; thorough: + small CAC, leaf of the 3-chunk file} x reply class {correct, truncated by 1, extended by 1, "
+         "{small CAC, full CAC, leaf of the 3-chunk file, SOC} x reply class {correct, truncated by 1, extended by 1, "
          "extended by a zero byte, one bit flipped, empty, 7 bytes, over-long with valid CS+8 prefix (+1..64 / +4096.. bytes), payload "
          "of another CAC / of a SOC; SOC: valid, wrong owner, signature bit flipped, truncated, extended}; pyramid via {GetChunkHashes "
          "direct, chunkinfo pyramid handler relay, retrieval+chunkinfo OnChunkRetrieved} x file {1 small chunk, 1 full chunk, manifest "
          "with a 3-chunk file, manifest with 2 files} x map class {honest, extra consistent, extra wrong hash, extra over-long, altered "
          "entry, root missing, child missing, over-long entry with valid prefix (2 sizes), entry shorter than a span}. quick: all "
-         "single operations on the reduced address set + a sample of depth-2 histories; thorough: all single operations with all "
+         "single operations (two-peer requests with the first reply from a small rejected set) + 60 sampled depth-2 histories; thorough: all single operations with all "
          "ordered reply pairs + 500 sampled depth-2 histories. distinct = distinct operation sequence; non-trivial = some payload "
          "reaches a hash comparison (not only empty / <8-byte replies or a map without root)",
     exhaustive=dict(quick=False, thorough=False),
